@@ -16,6 +16,7 @@ DECIDED += '; R7 the corruption hook is not called in place from code that holds
 DECIDED += "; R4 also: Drop for Barrier unregisters on every path (also while unwinding); a nested fs scope restores the outer scope's corruption hook (shared C01-R8)"
 DECIDED += "; R1 also: BarrierRepo::barrier answers None only where its scan of the registry is exhausted; R6 also: turmoil_fs::enter installs the scope's own hook on every path"
 DECIDED += '; R6 also: Sim::step installs the corruption hook on every path'
+DECIDED += '; R4 also: the id the Barrier keeps is the id it registered; R8 a suspended source waits for its release handle only'
 ASSUMPTIONS = ["tokio unbounded mpsc never rejects a send while the receiver lives"]
 
 BR = "turmoil::barriers::BarrierRepo::"
